@@ -309,6 +309,30 @@ static std::vector<GFrame> encode(unsigned prio, unsigned long pgn, unsigned src
   return r;
 }
 
+// TP.CM RTS (control 16, addressed) or BAM (control 32, broadcast) announcing `tpgn` with `nBytes` bytes
+static GFrame tpcm(bool bam, unsigned src, unsigned dst, unsigned long tpgn, unsigned nBytes) {
+  GFrame f; f.id = canId(7, 60416UL, src, bam ? 255 : dst); f.len = 8;
+  f.b[0] = bam ? 32 : 16; f.b[1] = (unsigned char)(nBytes & 0xff); f.b[2] = (unsigned char)(nBytes >> 8);
+  f.b[3] = (unsigned char)((nBytes + 6) / 7); f.b[4] = 0xff;
+  f.b[5] = (unsigned char)(tpgn & 0xff); f.b[6] = (unsigned char)((tpgn >> 8) & 0xff); f.b[7] = (unsigned char)((tpgn >> 16) & 0xff);
+  return f;
+}
+
+// application-declared PGNs (not in any library table)
+static const unsigned long USER_FP[] = {130000UL, 127000UL, 65300UL, 129999UL};
+static const unsigned long USER_SF[] = {65280UL, 65535UL, 61184UL, 2560UL};
+// lists bitmask: 1 = SetSingleFrameMessages, 2 = ExtendSingleFrameMessages, 4 = SetFastPacketMessages, 8 = ExtendFastPacketMessages
+static void declareLists(Rng &R, unsigned lists) {
+  for (int k = 0; k < 4; k++) {
+    if (!(lists & (1u << k))) continue;
+    bool sf = k < 2; std::string l = sf ? "sflist " : "fplist "; l += (k & 1) ? "1" : "0";
+    const unsigned long *pool = sf ? USER_SF : USER_FP;
+    for (int i = 0; i < 4; i++) if (R.chance(1, 2)) l += " " + std::to_string(pool[i]);
+    if (R.chance(1, 3)) l += sf ? " 127250" : " 129029";     // a library default PGN declared again
+    exec(l);
+  }
+}
+
 static const unsigned long FP_PDU2[] = {127489UL, 127506UL, 129029UL, 129540UL, 126996UL, 126998UL, 65240UL, 130816UL, 131071UL, 130900UL, 128275UL, 129285UL};
 static const unsigned long FP_PDU1[] = {126208UL, 126464UL, 126720UL};
 static const unsigned long SF_KNOWN[] = {127250UL, 127488UL, 128267UL, 129025UL, 130306UL, 126992UL, 59904UL, 60928UL, 59392UL, 126993UL};
@@ -354,19 +378,26 @@ static uint64_t pickOrigin(Rng &R) {
 
 // K well-formed senders, interleaved by a seeded scheduler; bus faults: drop, cut (rest of the message lost), duplicate, reorder
 static void randomCase(Rng &R, const char *fl, const char *kind, unsigned slots, unsigned K, int steps, unsigned pDrop, unsigned pCut,
-                       unsigned pDup, unsigned pSwap, int pduMix /*0: PDU2 only, 1: addressed too*/, bool oversize, int md) {
+                       unsigned pDup, unsigned pSwap, int pduMix /*0: PDU2 only, 1: addressed too*/, bool oversize, int md,
+                       unsigned lists = 0, unsigned pTP = 0) {
   caseKind = kind;
   reset(fl, slots, md, pickOrigin(R));
+  declareLists(R, lists);
   std::vector<Stream> st;
   for (unsigned i = 0; i < K; i++) {
     Stream s; s.src = (unsigned)R.pick(std::vector<int>{0, 1, 2, 3, 17, 35, 100, 200, 251, 252, 253, 254, 255}); if (R.chance(1, 2)) s.src = 10 + i;
     int cls = (int)R.below(10); cls = cls < 5 ? 0 : cls < 7 ? (pduMix ? 1 : 0) : cls < 9 ? 2 : 3;
-    s.pgn = pickPgn(R, cls, s.fast); s.seq = (unsigned)R.below(8); s.dstA = R.chance(1, 3) ? 255 : (unsigned)R.below(253); s.dstB = R.chance(1, 2) ? s.dstA : (unsigned)R.below(256);
+    s.pgn = pickPgn(R, cls, s.fast); s.seq = (unsigned)R.below(8);
+    if (lists && R.chance(1, 2)) { s.fast = R.chance(1, 2); s.pgn = s.fast ? USER_FP[R.below(4)] : USER_SF[R.below(4)]; } s.dstA = R.chance(1, 3) ? 255 : (unsigned)R.below(253); s.dstB = R.chance(1, 2) ? s.dstA : (unsigned)R.below(256);
     bool clash = false; for (auto &o : st) if (o.src == s.src && o.pgn == s.pgn) clash = true;   // one stream per (source, PGN)
     if (!clash) st.push_back(s);
   }
   for (int i = 0; i < steps; i++) {
     Stream &s = st[R.below(st.size())];
+    if (pTP && R.below(1000) < pTP) {     // the sender announces its PGN through ISO-TP as well (data packets lost): a stale TP session
+      C.count("gen_tp_open");
+      feed(tpcm(R.chance(1, 2), s.src, R.chance(1, 2) ? s.dstA : s.dstB, s.pgn, R.chance(1, 8) ? (unsigned)R.range(224, 1785) : (unsigned)R.range(9, 223)));
+    }
     if (s.pend.empty()) { if (R.chance(2, 3)) startMsg(R, s, oversize); else continue; }
     GFrame f = s.pend.front(); s.pend.pop_front();
     unsigned x = (unsigned)R.below(1000);
@@ -436,6 +467,36 @@ static void staleBudgetCase(Rng &R, const char *fl, unsigned slots, uint64_t ori
   if (variant == 0) { for (auto &f : a) feed(f); for (auto &f : b) feed(f); }                 // one after the other
   else if (variant == 1) { for (size_t k = 0; k < a.size(); k++) { feed(a[k]); feed(b[k]); } }   // interleaved: two stale slots give way
   else { GFrame sf = encode(6, 127250UL, 92, 255, std::vector<unsigned char>(8, 0x11), false, 0, 8, false)[0]; feed(sf); for (auto &f : a) feed(f); feed(sf); }
+  exec("q");
+}
+
+// directed: a stale TP session slot (TP.CM RTS/BAM for PGN P from source S, all data packets lost) and fast packets of the
+// same P from the same S (sequence id 0 first: its continuation counter equals LastFrame+1 of the TP slot) and of others
+static void tpStaleCase(Rng &R, const char *fl, unsigned slots, int variant, int md) {
+  caseKind = "tp_stale";
+  reset(fl, slots, md, pickOrigin(R));
+  static const unsigned long PG[] = {126996UL, 126998UL, 126208UL, 129029UL, 130816UL, 126464UL};
+  unsigned long P = PG[variant % 6]; bool bam = (variant / 6) % 2; unsigned S = 40 + (unsigned)R.below(3), D = bam ? 255 : 33;
+  unsigned fpDst = ((P >> 8) & 0xff) < 240 ? (R.chance(1, 2) ? D : 255) : 255;
+  std::vector<unsigned char> pl(20), p2(9); for (auto &c : pl) c = (unsigned char)R.below(256); for (auto &c : p2) c = (unsigned char)R.below(256);
+  // optionally another sender is in the middle of a message, so the TP slot is not slot 0
+  unsigned pre = (variant / 12) % 2 && slots > 2 ? 1 : 0;
+  auto o = encode(4, 127489UL, 30, 255, pl, true, 2, 20, false);
+  if (pre) feed(o[0]);
+  feed(tpcm(bam, S, D, P, (variant / 24) % 2 ? 300 : 133));          // 300: not receivable, no slot is taken
+  if (R.chance(1, 3)) { tick(3); feed(tpcm(bam, S, D, P, 133)); }   // repeated announce replaces the session
+  exec("q");
+  tick((uint64_t)R.range(1, 20));
+  auto a = encode(6, P, S, fpDst, pl, true, 0, 20, false);           // sequence id 0
+  for (auto &f : a) feed(f);
+  auto b = encode(6, P, S, fpDst, p2, true, 1, 9, false);
+  for (auto &f : b) feed(f);
+  auto c = encode(6, P, S + 7, 255, pl, true, 0, 20, false);         // same PGN from another source, interleaved with S
+  auto d = encode(6, P, S, fpDst, pl, true, 2, 20, false);
+  for (size_t k = 0; k < c.size(); k++) { feed(c[k]); feed(d[k]); }
+  if (pre) { feed(o[1]); feed(o[2]); }
+  feed(tpcm(!bam, S, D, P, 50));                                      // a second session (other destination class) from S
+  for (auto &f : encode(6, P, S, fpDst, pl, true, 0, 20, false)) feed(f);
   exec("q");
 }
 
@@ -520,6 +581,13 @@ int main(int argc, char **argv) {
         for (uint64_t origin : std::vector<uint64_t>{0, B31 - 700 - 20, B31 - 700 - 5000, B31 - 700 + 50, B32 - 700 - 20, B32 - 700 - 60, B32 - 700 + 20, 2 * B32 - 700 - 18})
           staleBudgetCase(R, fl, slots, origin, wait, v++ % 3);
   }
+  for (unsigned slots = 1; slots <= 8; slots++)
+    for (int v = 0; v < 48; v += (slots <= 3 ? 1 : 5)) tpStaleCase(R, fl, slots, v + (int)slots, (v % 7) == 3 ? 1 : 0);
+  C.sample("directed: stale TP session slot (TP.CM RTS/BAM announcing P from S, no data packets) then fast packets of P from S (sequence id 0 first) and from others; 126996/126998/126208/129029/130816/126464; slots 1..8; TP slot first or behind a busy slot; unreceivable announce (300 bytes)");
+  for (unsigned lists = 1; lists < 16; lists++)
+    for (int md = 0; md < 2; md++)
+      randomCase(R, fl, "lists", (unsigned)R.range(2, 6), 4, 120, 20, 10, 0, 0, 1, false, md, lists, 0);
+  C.sample("directed: every combination of Set/ExtendSingleFrameMessages and Set/ExtendFastPacketMessages (15) x handle-all/only-known, streams of application-declared, default, proprietary and unknown PGNs");
   C.sample("directed: all slots held by abandoned messages started just before clock value 0+700 / 2^31 +-k / 2^32 (and 2*2^32), next complete messages arrive 101/150/1000 ms later and must be delivered; slots 1..8");
   C.sample("directed: abandon+restart with as many senders as slots; re-addressed restart; sequence-id wrap onto a stale slot; 100 ms recycling at 0/94/99/100/101/200 ms incl. across the 2^32 wrap");
   int ncases = C.thorough ? 2500 : 260;
@@ -531,10 +599,11 @@ int main(int argc, char **argv) {
       case 0: case 1: randomCase(R, fl, "wf_drops", slots, (unsigned)R.range(1, eff), steps, 40, 15, 0, 0, (int)R.below(2), true, md); break;          // <= slots senders
       case 2: randomCase(R, fl, "wf_pdu2", slots, (unsigned)R.range(1, eff), steps, 30, 40, 0, 0, 0, false, md); break;
       case 3: randomCase(R, fl, "faulty", slots, (unsigned)R.range(1, eff), steps, 30, 15, 30, 30, 1, true, md); break;
-      case 4: randomCase(R, fl, "overload", slots, eff + (unsigned)R.range(1, 4), steps, 20, 20, 10, 10, 1, true, md); break;  // slot-exhaustion
-      case 5: randomCase(R, fl, "clean", slots, (unsigned)R.range(1, eff), steps, 0, 0, 0, 0, 1, false, md); break;
+      case 4: randomCase(R, fl, "overload", slots, eff + (unsigned)R.range(1, 4), steps, 20, 20, 10, 10, 1, true, md, 0, R.chance(1, 2) ? 10 : 0); break;  // slot-exhaustion
+      case 5: if (R.chance(1, 2)) randomCase(R, fl, "clean", slots, (unsigned)R.range(1, eff), steps, 0, 0, 0, 0, 1, false, md);
+              else randomCase(R, fl, "lists_tp", slots, (unsigned)R.range(1, eff), steps, 20, 20, 5, 5, 1, true, md, (unsigned)R.below(16), 15); break;
       case 6: garbageCase(R, fl, slots, steps, md); break;
-      default: randomCase(R, fl, "wf_addressed", slots, (unsigned)R.range(1, eff), steps, 20, 50, 0, 0, 1, false, md); break;
+      default: randomCase(R, fl, "wf_addressed", slots, (unsigned)R.range(1, eff), steps, 20, 50, 0, 0, 1, false, md, 0, R.chance(1, 2) ? 12 : 0); break;
     }
   }
   C.sample("random: K senders x {PDU2 fast packet, addressed fast packet, single frame, unknown PGN} x lengths 0..223 (+announced 224..255), seeded interleaving, drop/cut/duplicate/reorder, clock jumps (1..3, 95..105 ms, 2^31, 2^32), slots 0(=5)..8, handle-all / only-known");
